@@ -1,3 +1,4 @@
+import RpcVerif.Generated.ProvFacts
 import RpcVerif.Lemmas.ConnProps
 /-
   C19 — context cancellation returns promptly and harms no other call.
@@ -29,13 +30,14 @@ theorem C19_completed_is_final {cfg : Cfg} {tr : List Ev} {s s' : State} (h : Ac
     ∃ c', s'.calls k = some c' ∧ c'.signals = 1 ∧ c'.errHist = c.errHist ∧ c'.replyFrom = c.replyFrom ∧ c'.replyWrites = c.replyWrites :=
   signalled_stable s s' e (invS_accepts h) (auxInv_accepts h) hs k c hc hsig
 
-/-- `finishCall`'s buffer choice (conn.go): the supplied buffer is used iff its capacity suffices;
-    then exactly `len` bytes of it are written, otherwise it is not touched. -/
-def replyBuffer (cap len : Nat) : Bool × Nat := if cap ≥ len then (true, len) else (false, 0)
+/-- `finishCall`'s buffer choice: the condition is the one in conn.go (translated on every run,
+    Generated/ProvFacts.lean): the supplied buffer is used iff its capacity suffices; then exactly
+    `len` bytes of it are written, otherwise it is not touched. -/
+def replyBuffer (cap len : Nat) : Bool × Nat := if Gen.ctxBufferFits cap len then (true, len) else (false, 0)
 
 theorem C19_context_buffer (cap len : Nat) :
     ((replyBuffer cap len).1 = true ↔ len ≤ cap) ∧ (replyBuffer cap len).2 ≤ cap ∧
     ((replyBuffer cap len).1 = false → (replyBuffer cap len).2 = 0) := by
-  unfold replyBuffer; split <;> simp <;> omega
+  unfold replyBuffer Gen.ctxBufferFits; split <;> simp_all <;> omega
 
 end RpcVerif.Props
